@@ -17,6 +17,7 @@ P(o) == [name |-> o.name, kind |-> o.kind]
 FileOf(o) == CASE o.kind = "absent" -> Absent
                [] o.kind \in {"npy", "raw"} -> [kind |-> o.kind, stats |-> St(o.stats)]
                [] o.kind = "npz" -> [kind |-> "npz", entries |-> {[key |-> o.entries[k].key, stats |-> St(o.entries[k].stats)] : k \in 1..Len(o.entries)}]
+               [] OTHER -> [kind |-> o.kind]   \* e.g. "unreadable:<exception>": matches no state of the model, so the event is rejected
 Act == CASE Ev.op = "accv" -> AccVector(Ev.i, Ev.v)
          [] Ev.op = "acct" -> AccTensor(Ev.i, VectorsOf(Ev.flat, Ev.shape, Ev.axis1))   \* the spec reads the layout
          [] Ev.op = "save" -> Save(Ev.i, P(Ev.p), Ev.key, Ev.ow)
